@@ -242,22 +242,7 @@ def run(ctx, R):
     rev_loops = [x for x in walk(nh["body"]) if x["k"] == "MethodCall" and x["name"] == "rev"]
     R.ob("C13:argument-order:Str-vs-Str:reverse-loop", len(rev_loops) >= 1, "structure arguments must be pushed in reverse index order", F.where(nx))
 
-    # packed strings are compared byte-wise up to the first difference and then as code points: the
-    # decoding window around the differing byte must span a whole UTF-8 sequence (3 back, 4 forward)
-    cps = F.find("machine::heap::compare_pstr_slices")
-    ch_ = F.hir(cps)
-    backs = [int(a["lit"]["int"]) for x in walk(ch_["body"]) if x["k"] == "MethodCall" and x["name"] == "saturating_sub" for a in x["args"] if a["k"] == "Lit" and "int" in a["lit"]]
-    fwds = []
-    for x in walk(ch_["body"]):
-        if x["k"] == "Struct" and (res_name(x) or "").endswith("ops::Range"):
-            end = dict(x["fields"]).get("end")
-            if end is not None:
-                fwds += [int(y["b"]["lit"]["int"]) for y in walk(end) if y["k"] == "Binary" and y["op"] == "Add" and y["b"]["k"] == "Lit" and "int" in y["b"]["lit"]]
-    if not backs or not fwds:
-        raise AnchorLost("compare_pstr_slices: decoding window not recognised (backs %s, forwards %s)" % (backs, fwds))
-    R.ob("C13:pstr-compare:utf8-window", min(backs) >= 3 and min(fwds) >= 4,
-         "the window decoded around the first differing byte reaches %s bytes back and %s bytes forward; a UTF-8 sequence has up to 4 bytes, so at least "
-         "3 back and 4 forward are needed or a 4-byte character is truncated and mis-ordered" % (backs, fwds), F.where(cps))
+    pstr_utf8_window(F, R, "C13")
 
     # parallel_cmp: Ordering -> TermPair
     pc = F.find_impl("ParallelHeapIter", None, "parallel_cmp")
@@ -376,3 +361,23 @@ def run(ctx, R):
                  "%s backtracks on %s (other %s)" % (v, sorted(s["fail"]), sorted(s["other"])), where)
             R.sample({"arm": v, "shape": s["kind"], "success_on": sorted(s["succ"])})
     R.floor("term comparison arms", n_arm, 24)
+
+
+def pstr_utf8_window(F, R, prefix):
+    # packed strings are compared byte-wise up to the first difference and then as code points: the
+    # decoding window around the differing byte must span a whole UTF-8 sequence (3 back, 4 forward)
+    cps = F.find("machine::heap::compare_pstr_slices")
+    ch_ = F.hir(cps)
+    backs = [int(a["lit"]["int"]) for x in walk(ch_["body"]) if x["k"] == "MethodCall" and x["name"] == "saturating_sub" for a in x["args"] if a["k"] == "Lit" and "int" in a["lit"]]
+    fwds = []
+    for x in walk(ch_["body"]):
+        if x["k"] == "Struct" and (res_name(x) or "").endswith("ops::Range"):
+            end = dict(x["fields"]).get("end")
+            if end is not None:
+                fwds += [int(y["b"]["lit"]["int"]) for y in walk(end) if y["k"] == "Binary" and y["op"] == "Add" and y["b"]["k"] == "Lit" and "int" in y["b"]["lit"]]
+    if not backs or not fwds:
+        raise AnchorLost("compare_pstr_slices: decoding window not recognised (backs %s, forwards %s)" % (backs, fwds))
+    R.ob("%s:pstr-compare:utf8-window" % prefix, min(backs) >= 3 and min(fwds) >= 4,
+         "the window decoded around the first differing byte reaches %s bytes back and %s bytes forward; a UTF-8 sequence has up to 4 bytes, so at least "
+         "3 back and 4 forward are needed or a 4-byte character is truncated and mis-ordered" % (backs, fwds), F.where(cps))
+
